@@ -264,13 +264,23 @@ pub fn t22_mint_acct(decimals: u8, fee: Option<(u16, u64)>) -> Acct {
         let mut st = StateWithExtensionsMut::<spl_token_2022::state::Mint>::unpack_uninitialized(&mut data).unwrap();
         if let Some((bps, max)) = fee {
             let c = st.init_extension::<TransferFeeConfig>(false).unwrap();
+            // the fee in force (clock epoch is 0 throughout) ...
             let f = TransferFee { epoch: 0.into(), maximum_fee: max.into(), transfer_fee_basis_points: bps.into() };
+            // ... and a DIFFERENT fee in the other slot, as after a `SetTransferFee` by the fee authority: either a change
+            // scheduled for epoch 2 (newer slot, not yet in force: removal of the fee or a doubling), or the superseded
+            // fee left behind in the older slot. Only `get_epoch_fee(epoch)` picks the right one.
+            let other_bps: u16 = if bps % 4 < 2 { 0 } else { bps.saturating_mul(2).min(10_000) };
+            let (older, newer) = if bps % 2 == 0 {
+                (f, TransferFee { epoch: 2.into(), maximum_fee: max.into(), transfer_fee_basis_points: other_bps.into() })
+            } else {
+                (TransferFee { epoch: 0.into(), maximum_fee: max.into(), transfer_fee_basis_points: other_bps.into() }, f)
+            };
             *c = TransferFeeConfig {
                 transfer_fee_config_authority: Default::default(),
                 withdraw_withheld_authority: Default::default(),
                 withheld_amount: 0.into(),
-                older_transfer_fee: f,
-                newer_transfer_fee: f,
+                older_transfer_fee: older,
+                newer_transfer_fee: newer,
             };
         }
         let mut m = spl_token_2022::state::Mint::default();
@@ -1158,4 +1168,84 @@ pub fn all_banks(vm: &Vm) -> Vec<(Pubkey, Bank)> {
         }
     }
     v
+}
+
+// ------------------------------------------------------------------------------------------
+// emissions (campaign): one classic-SPL emissions mint shared by all banks of the world
+// ------------------------------------------------------------------------------------------
+pub fn em_auth(bank: &Pubkey, mint: &Pubkey) -> Pubkey {
+    Pubkey::find_program_address(&[b"emissions_auth_seed", bank.as_ref(), mint.as_ref()], &marginfi::ID).0
+}
+pub fn em_vault(bank: &Pubkey, mint: &Pubkey) -> Pubkey {
+    Pubkey::find_program_address(&[b"emissions_token_account_seed", bank.as_ref(), mint.as_ref()], &marginfi::ID).0
+}
+
+impl World {
+    pub fn emissions_mint(&self) -> Pubkey {
+        kp("campaign_emissions_mint", 0)
+    }
+    /// fabricate the emissions mint and the admin's funding account on first use
+    pub fn ensure_emissions_fixtures(&mut self) -> (Pubkey, Pubkey) {
+        let mint = self.emissions_mint();
+        if self.vm.get(&mint).is_none() {
+            self.vm.set(mint, spl_mint_acct(6));
+        }
+        let funding = kp("campaign_emissions_funding", 0);
+        if self.vm.get(&funding).is_none() {
+            self.vm.set(funding, spl_token_acct(mint, self.roles.emissions, 1 << 60));
+        }
+        (mint, funding)
+    }
+    pub fn emissions_destination(&mut self, owner: Pubkey, n: u64) -> Pubkey {
+        let mint = self.emissions_mint();
+        let k = kp("campaign_emissions_dest", n);
+        if self.vm.get(&k).is_none() {
+            self.vm.set(k, spl_token_acct(mint, owner, 0));
+        }
+        k
+    }
+    pub fn ix_setup_emissions(&self, bi: usize, funding: Pubkey, flags: u64, rate: u64, total: u64) -> Instruction {
+        let b = self.banks[bi].key;
+        let mint = self.emissions_mint();
+        mfi_ix(
+            marginfi::accounts::LendingPoolSetupEmissions {
+                group: self.group,
+                delegate_emissions_admin: self.roles.emissions,
+                bank: b,
+                emissions_mint: mint,
+                emissions_auth: em_auth(&b, &mint),
+                emissions_token_account: em_vault(&b, &mint),
+                emissions_funding_account: funding,
+                token_program: spl_token::ID,
+                system_program: system_program::ID,
+            }
+            .to_account_metas(Some(true)),
+            marginfi::instruction::LendingPoolSetupEmissions { flags, rate, total_emissions: total }.data(),
+        )
+    }
+    pub fn ix_withdraw_emissions(&self, macct: Pubkey, signer: Pubkey, bi: usize, dst: Pubkey) -> Instruction {
+        let b = self.banks[bi].key;
+        let mint = self.emissions_mint();
+        mfi_ix(
+            marginfi::accounts::LendingAccountWithdrawEmissions {
+                group: self.group,
+                marginfi_account: macct,
+                authority: signer,
+                bank: b,
+                emissions_mint: mint,
+                emissions_auth: em_auth(&b, &mint),
+                emissions_vault: em_vault(&b, &mint),
+                destination_account: dst,
+                token_program: spl_token::ID,
+            }
+            .to_account_metas(Some(true)),
+            marginfi::instruction::LendingAccountWithdrawEmissions {}.data(),
+        )
+    }
+    pub fn ix_settle_emissions(&self, macct: Pubkey, bi: usize) -> Instruction {
+        mfi_ix(
+            marginfi::accounts::LendingAccountSettleEmissions { marginfi_account: macct, bank: self.banks[bi].key }.to_account_metas(Some(true)),
+            marginfi::instruction::LendingAccountSettleEmissions {}.data(),
+        )
+    }
 }
